@@ -358,3 +358,94 @@ def obligations(tier):
             for layout in (("lf", "lf/no-final-newline") if q else ("lf", "lf/no-final-newline", "crlf", "lf/blank-lines")):
                 out.append(("multi/%s/%d/%s" % (reader, i, layout), dict(kind="multi", reader=reader, spec=spec, layout=layout)))
     return out
+
+
+# ------------------------------------------------------------------------- concrete delivery matrix (end-to-end witnesses of H-STAGE; NOT solver-decided)
+
+CHANNELS = ["nt/file", "nt/files", "nt/gz", "nt/xz", "nt/zip", "nt/zips", "turtle/zips", "tsv/raw", "tsv/file", "tsv/files", "tsv/gz", "ttl_iter/raw", "ttl_iter/file", "ttl_iter/files", "ttl_iter/gz",
+            "turtle/raw", "turtle/file", "turtle/files", "turtle/gz", "turtle/zip", "xml/raw", "xml/file", "xml/xz", "n3/raw", "n3/file", "json-ld/raw", "json-ld/file", "rdflib"]
+RDFLIB_REPARSED = ("turtle/", "xml/", "n3/")       # parsed by rdflib once per pass: see finding DELIVERY-rdflib-reparse-bnode-instances
+
+
+class Delivered:
+    """Context manager: the graph (list of (s, p, o) harness terms) delivered through one channel -> keyword arguments for Shaper."""
+
+    def __init__(self, triples, channel):
+        self.triples, self.channel = triples, channel
+
+    def __enter__(self):
+        import gzip
+        import lzma
+        import zipfile
+        import rdflib
+        from shexer.consts import NT, TSV_SPO, TURTLE, TURTLE_ITER, RDF_XML, JSON_LD, N3, GZ, XZ, ZIP
+        from . import rows as R
+        self.dir = tempfile.mkdtemp(prefix="c08_")
+        fmt, how = self.channel.split("/") if "/" in self.channel else (self.channel, None)
+        nt_doc = R.to_ntriples(self.triples)
+        if fmt == "rdflib":
+            g = rdflib.Graph()
+            g.parse(data=nt_doc, format="nt")
+            return dict(rdflib_graph=g)
+        half = len(self.triples) // 2
+        parts = [self.triples[:half], self.triples[half:]]
+        if fmt in ("nt", "ttl_iter"):
+            render = R.to_ntriples
+            const, ext = (NT if fmt == "nt" else TURTLE_ITER), "nt"
+        elif fmt == "tsv":
+            render = lambda ts: "".join("%s\t<%s>\t%s\n" % (R.nt_term(s_), p_, R.nt_term(o_)) for s_, p_, o_ in ts)
+            const, ext = TSV_SPO, "tsv"
+        else:
+            rd = {"turtle": ("turtle", TURTLE, "ttl"), "xml": ("xml", RDF_XML, "rdf"), "n3": ("n3", N3, "n3"), "json-ld": ("json-ld", JSON_LD, "jsonld")}[fmt]
+
+            def render(ts, rd=rd):
+                g = rdflib.Graph()
+                g.parse(data=R.to_ntriples(ts), format="nt")
+                out = g.serialize(format=rd[0])
+                return out.decode("utf-8") if isinstance(out, bytes) else out
+            const, ext = rd[1], rd[2]
+        if how == "raw":
+            return dict(raw_graph=render(self.triples), input_format=const)
+
+        def write(name, text, opener=open):
+            path = os.path.join(self.dir, name)
+            with opener(path, "wb") as f:
+                f.write(text.encode("utf-8"))
+            return path
+        if how == "file":
+            return dict(graph_file_input=write("g." + ext, render(self.triples)), input_format=const)
+        if how == "files":
+            return dict(graph_list_of_files_input=[write("a." + ext, render(parts[0])), write("b." + ext, render(parts[1]))], input_format=const)
+        if how == "gz":
+            return dict(graph_file_input=write("g.%s.gz" % ext, render(self.triples), gzip.open), input_format=const, compression_mode=GZ)
+        if how == "xz":
+            return dict(graph_file_input=write("g.%s.xz" % ext, render(self.triples), lzma.open), input_format=const, compression_mode=XZ)
+        if how == "zip":
+            path = os.path.join(self.dir, "g.zip")
+            with zipfile.ZipFile(path, "w") as z:
+                z.writestr("a." + ext, render(parts[0]))
+                z.writestr("b." + ext, render(parts[1]))
+            return dict(graph_file_input=path, input_format=const, compression_mode=ZIP)
+        if how == "zips":      # several archives, one member each
+            paths = []
+            for i, part in enumerate(parts):
+                path = os.path.join(self.dir, "g%d.zip" % i)
+                with zipfile.ZipFile(path, "w") as z:
+                    z.writestr("m%d.%s" % (i, ext), render(part))
+                paths.append(path)
+            return dict(graph_list_of_files_input=paths, input_format=const, compression_mode=ZIP)
+        raise HarnessError(self.channel)
+
+    def __exit__(self, *a):
+        import shutil
+        shutil.rmtree(self.dir, ignore_errors=True)
+        return False
+
+
+def splits_blank_nodes(triples):
+    """Several files: a blank node label shared by two documents denotes two nodes (RDF semantics, and what rdflib does) - such graphs are not delivered in pieces."""
+    half = len(triples) // 2
+
+    def labels(ts):
+        return {t[1] for s_, _, o_ in ts for t in (s_, o_) if t[0] == "bnode"}
+    return bool(labels(triples[:half]) & labels(triples[half:]))
